@@ -52,6 +52,13 @@ let parse_edge s : edge = match split_on s "." with
   | _ -> failwith ("bad edge " ^ s)
 let parse_edges s = if s = "_" || s = "" then [] else List.map parse_edge (split_on s ",")
 
+let parse_new s : (int * int * int) list =
+  if s = "_" || s = "" then [] else
+  List.map (fun t -> match split_on t "," with
+      | [a; b] -> (int_of_string a, int_of_string b, 0)
+      | [a; b; w] -> (int_of_string a, int_of_string b, int_of_string w)
+      | _ -> failwith "bad NEW edge") (split_on s ";")
+
 let stats : (string, int) Hashtbl.t = Hashtbl.create 64
 let bump k = Hashtbl.replace stats k (1 + try Hashtbl.find stats k with Not_found -> 0)
 let bumpn k n = Hashtbl.replace stats k (n + try Hashtbl.find stats k with Not_found -> 0)
@@ -75,7 +82,9 @@ let () =
         let g = ref (new_graph directed (nat_of_int n)) in
         let nedges = ref 0 and nqueries = ref 0 and selfloops = ref 0 and zerow = ref 0 in
         let seen_edges = Hashtbl.create 16 and parallel = ref 0 in
-        let native_edges = ref [] and native_set = Hashtbl.create 16 in
+        let native_edges = ref [] and native_set = ref (Hashtbl.create 16) in
+        let held : (string * graph * (int * int * int) list * (int * int * int, unit) Hashtbl.t) list ref = ref [] in
+        let label = ref "" in
         let fw_cache = ref None and fwu_cache = ref None in
         let paths_cache = Hashtbl.create 16 in
         let paths_of_c sg s = match Hashtbl.find_opt paths_cache (sg, s) with
@@ -89,12 +98,8 @@ let () =
         let opno = ref 0 in
         let opsig = Buffer.create 256 in
         let mism kind_ op fmt = Printf.ksprintf (fun s ->
-          Printf.printf "MISMATCH line=%d op=%d kind=%s what=%s %d: %s: %s\n" !lineno !opno kind_ kind n op s) fmt in
-        List.iter (fun opres ->
-          incr opno; incr ops;
-          let op, res = match split_on opres "->" with
-            | [a; b] -> (trim a, trim b) | [a] -> (trim a, "?") | _ -> (opres, "?") in
-          Buffer.add_string opsig op; Buffer.add_char opsig ';';
+          Printf.printf "MISMATCH line=%d op=%d kind=%s what=%s %d: %s%s: %s\n" !lineno !opno kind_ kind n !label op s) fmt in
+        let rec handle op res =
           let toks = Array.of_list (List.filter (fun s -> s <> "") (split_on op " ")) in
           let arg i = int_of_string toks.(i) in
           (* a negative vertex is out of range exactly like a too large one *)
@@ -104,13 +109,16 @@ let () =
           if res = "?" then begin
             (* corpus / replay lines without results: only maintain the graph *)
             if toks.(0) = "E" then g := add_edge !g ((vtx 1, vtx 2), z_of_int (if Array.length toks > 3 then arg 3 else 0))
+            else if toks.(0) = "NEW" then
+              g := List.fold_left (fun acc (a, b, w) -> add_edge acc ((nat_of_int (if a < 0 then n + 1000 else a), nat_of_int (if b < 0 then n + 1000 else b)), z_of_int w))
+                     (new_graph directed (nat_of_int n)) (parse_new (if Array.length toks > 1 then toks.(1) else "_"))
           end else
           try (match toks.(0) with
           | "E" ->
             let w = if Array.length toks > 3 then arg 3 else 0 in
             if arg 1 >= 0 && arg 1 < n && arg 2 >= 0 && arg 2 < n then begin
               incr nedges;
-              native_edges := (arg 1, arg 2, w) :: !native_edges; Hashtbl.replace native_set (arg 1, arg 2, w) ();
+              native_edges := (arg 1, arg 2, w) :: !native_edges; Hashtbl.replace !native_set (arg 1, arg 2, w) ();
               if arg 1 = arg 2 then incr selfloops;
               if w = 0 && (kind = "WU" || kind = "WD") then incr zerow;
               let key = if directed then (arg 1, arg 2) else (min (arg 1) (arg 2), max (arg 1) (arg 2)) in
@@ -147,7 +155,7 @@ let () =
               else ([arg 3], [res]) in
             (match paths_of_c sg (int_of_nat (vtx 2)) with
              | Ok p ->
-               if is_panic && toks.(0) = "PATHS" then mism "api" op "implementation %s" res
+               if (is_panic || res = "HANG") && toks.(0) = "PATHS" then mism "api" op "implementation %s (the proved model terminates)" res
                else if List.length results <> List.length targets then mism "api" op "wrong number of answers: %s" res
                else
                List.iter2 (fun v r ->
@@ -352,7 +360,7 @@ let () =
                        | Some (d, es) ->
                          let rec chain a sum = function
                            | [] -> a = v && sum = d
-                           | (x, y, w) :: t -> x = a && Hashtbl.mem native_set (x, y, w) && chain y (sum + w) t in
+                           | (x, y, w) :: t -> x = a && Hashtbl.mem !native_set (x, y, w) && chain y (sum + w) t in
                          if not !bad && not (chain src 0 es) then begin
                            bad := true; mism "api" op "PathTo(%d) is not a path from %d of weight %d" v src d end) nout
                    end;
@@ -364,9 +372,69 @@ let () =
                      (List.combine nout mdist)
                  end
                end)
+          | "NEW" ->
+            let es = parse_new (if Array.length toks > 1 then toks.(1) else "_") in
+            bump "graphs_built_by_constructor"; bumpn "constructor_edges" (List.length es);
+            g := new_graph directed (nat_of_int n);
+            native_edges := []; native_set := Hashtbl.create 16;
+            List.iter (fun (a, b, w) ->
+              if a >= 0 && a < n && b >= 0 && b < n then begin
+                incr nedges;
+                native_edges := (a, b, w) :: !native_edges; Hashtbl.replace !native_set (a, b, w) ();
+                if a = b then incr selfloops;
+                if w = 0 && (kind = "WU" || kind = "WD") then incr zerow;
+                let key = if directed then (a, b) else (min a b, max a b) in
+                if Hashtbl.mem seen_edges key then incr parallel else Hashtbl.add seen_edges key ()
+              end;
+              g := add_edge !g ((nat_of_int (if a < 0 then n + 1000 else a), nat_of_int (if b < 0 then n + 1000 else b)), z_of_int w)) es;
+            fw_cache := None; fwu_cache := None; Hashtbl.reset paths_cache;
+            if res <> "-" then mism "api" op "constructor reported %s" res
+          | "ADJ" ->
+            bump "q_ADJ";
+            let weighted = (kind = "WU" || kind = "WD") in
+            let rows = List.init n (fun v ->
+              if weighted then List.map edge_str (adj_edges !g (nat_of_int v))
+              else List.map string_of_int (ints (adjv !g (nat_of_int v)))) in
+            let row_str r = if r = [] then "_" else String.concat (if weighted then "," else ".") r in
+            let m = String.concat ";" (string_of_int (List.length !native_edges) :: List.map row_str rows) in
+            if res <> m then begin
+              if is_panic || res = "HANG" then mism "api" op "implementation %s" res else
+              let parts = split_on res ";" in
+              let irows = List.map (fun r -> if r = "_" then [] else split_on r (if weighted then "," else ".")) (List.tl parts) in
+              let norm rs = List.map (List.sort compare) rs in
+              if List.hd parts <> string_of_int (List.length !native_edges) || norm irows <> norm rows then
+                mism "api" op "the adjacency lists are not those of the given edge list: implementation %s, model %s" res m
+              else mism "fidelity" op "same adjacency sets, different order: implementation %s, model %s" res m
+            end
+          | "HOLD" ->
+            bump "held_result_objects";
+            let hop = String.concat " " (List.tl (Array.to_list toks)) in
+            held := !held @ [(hop, !g, !native_edges, Hashtbl.copy !native_set)];
+            if res <> "-" then handle hop res
+          | "USE" ->
+            bump "retention_probes";
+            (match List.nth_opt !held (arg 1) with
+             | None -> if res <> "NA" then mism "fidelity" op "no such held object, implementation %s" res
+             | Some (hop, hg, hne, hns) ->
+               (* check the earlier object against the graph as it was when the object was created *)
+               let sg = !g and sne = !native_edges and sns = !native_set in
+               g := hg; native_edges := hne; native_set := hns;
+               fw_cache := None; fwu_cache := None; Hashtbl.reset paths_cache;
+               label := Printf.sprintf "%s (result object created earlier, read after later queries) = " op;
+               handle hop res;
+               label := "";
+               g := sg; native_edges := sne; native_set := sns;
+               fw_cache := None; fwu_cache := None; Hashtbl.reset paths_cache)
           | _ -> ())
           with Failure _ | Invalid_argument _ | Not_found | Scanf.Scan_failure _ ->
             mism "api" op "unparsable / non-integer answer: %s" (if String.length res > 200 then String.sub res 0 200 else res)
+        in
+        List.iter (fun opres ->
+          incr opno; incr ops;
+          let op, res = match split_on opres "->" with
+            | [a; b] -> (trim a, trim b) | [a] -> (trim a, "?") | _ -> (opres, "?") in
+          Buffer.add_string opsig op; Buffer.add_char opsig ';';
+          handle op res
         ) body;
         if !selfloops > 0 then bump "graphs_with_self_loops";
         if !parallel > 0 then bump "graphs_with_parallel_edges";
